@@ -655,3 +655,196 @@ def r12_store_updates_sites_and_tags(ctx):
 
 
 RULES += [r12_store_updates_sites_and_tags]
+
+
+def r13_region_copy_overwrites_contents(ctx):
+    ctx.rule("C15.r13", "region_copy(lhs, rhs): on every non-bottom path the contents of lhs (its ghost variables) are assigned / expanded "
+             "from rhs or forgotten - the early return for an untracked rhs must not leave the old contents of lhs in place", floor=1)
+    n = 0
+    for fn in _fns(ctx, "region_copy")[:1]:
+        body = fn["body"]
+        decls = local_decls(body)
+
+        alldecls = {d.get("id"): d for d in walk(body) if isinstance(d, dict) and d.get("k") == "decl"}
+
+        def mentions_lhs(e, depth=0):
+            for y in walk(e):
+                if isinstance(y, dict) and y.get("k") == "ref":
+                    if is_param(y, fn, 0):
+                        return True
+                    if y.get("rk") == "local" and depth < 2:
+                        d = decls.get(y.get("id")) or alldecls.get(y.get("id"))
+                        if d is not None and "i" in d and mentions_lhs(d["i"], depth + 1):
+                            return True
+            return False
+
+        def gen(x):
+            if is_call(x, name=("forget", "assign", "expand", "forget_region_ghost_vars")):
+                if (x.get("o") is not None and mentions_lhs(x["o"])) or any(mentions_lhs(a) for a in x.get("a", [])[:1] if is_call(x, name="forget_region_ghost_vars")):
+                    return ("contents",)
+                # base_rhs.expand(m_base_dom, base_lhs): the destination is the last argument
+                if is_call(x, name="expand") and x.get("a") and mentions_lhs(x["a"][-1]):
+                    return ("contents",)
+            return ()
+
+        def refine(cond, pol):
+            if is_call(strip(cond), name="is_bottom") and pol:
+                return ("contents",)
+            # `if (optional gvars = get_gvars(lhs)) forget`: without ghost variables there are no contents to forget
+            if not pol:
+                for y in walk(cond):
+                    if isinstance(y, dict) and y.get("k") == "ref" and y.get("rk") == "local":
+                        d = alldecls.get(y.get("id"))
+                        if d is not None and "i" in d and any(is_call(c, name="get_gvars") for c in walk(d["i"])) and mentions_lhs(d["i"]):
+                            return ("contents",)
+            return ()
+        fl = paths.MustEvents(gen, refine=refine)
+        try:
+            fl.run(body)
+        except paths.Unstructured:
+            ctx.undecided("region_copy: unstructured control flow", fn, body)
+            continue
+        n += 1
+        miss = [(r, st) for r, st in fl.returns if "contents" not in st]
+        if miss:
+            r = miss[0][0]
+            ctx.bad("region_domain::region_copy can return without assigning or forgetting the contents of the destination region (the source "
+                    "is untracked): U2 holds 5, U2 := region_copy(U1) with U1 fresh, *q := 7 through a new reference of U2, x := *q gives "
+                    "x = 5", fn, r if r is not None else body, sig="region-copy-stale-contents")
+        else:
+            ctx.ok("region_copy assigns or forgets the contents of lhs on every path", fn, body)
+    if n == 0:
+        ctx.fail("rule C15.r13: region_copy not decided")
+
+
+def r14_intrinsic_outputs_redefined(ctx):
+    ctx.rule("C15.r14", "region intrinsics with an output Boolean (is_unfreed_or_null, does_not_have_tag, is_dereferenceable): every path "
+             "through the handler redefines the output (sets it to true) or forgets it - also when the answer is unknown and when the "
+             "analysis is switched off by its parameter; a stale output makes `b := false; b := is_...(..); assume(b)` bottom", floor=3)
+    fs = _fns(ctx, "intrinsic")
+    n = 0
+    for fn in fs[:1]:
+        body = fn["body"]
+        decls = local_decls(body)
+        setters = {d["id"] for d in decls.values() if isinstance(strip(d.get("i")), dict) and strip(d["i"]).get("k") == "lambda" and
+                   any((c.get("k") == "call" and c.get("op") == "-=") or is_call(c, name=("assume_bool", "operator-=")) for c in walk(strip(d["i"]).get("b")))}
+        for iff in [x for x in walk(body) if x.get("k") == "if"]:
+            c = iff.get("c")
+            lits = [y.get("v") for y in walk(c) if isinstance(y, dict) and y.get("k") in ("lit", "str") and isinstance(y.get("v"), str)]
+            name = next((nm for nm in ("is_unfreed_or_null", "does_not_have_tag", "is_dereferenceable") if any(nm in (l or "") for l in lits) and
+                         not any(("\"un" in (l or "")) for l in lits)), None)
+            if name is None or any("unfreed_or_null" in (l or "") and "is_unfreed_or_null" not in (l or "") for l in lits):
+                continue
+
+            def gen(x):
+                if x.get("k") == "call" and (x.get("op") == "-=" or (callee(x) or {}).get("name") == "operator-=") and \
+                        (x.get("o") is None or is_this(strip(x.get("o")))):
+                    return ("out",)
+                if x.get("k") == "call" and x.get("op") == "()" and isinstance(strip(x.get("o")), dict) and strip(x["o"]).get("id") in setters:
+                    return ("out",)
+                return ()
+            fl = paths.MustEvents(gen)
+            orig_loop = fl._loop
+
+            def _loop(nd, st, orig_loop=orig_loop):
+                out = orig_loop(nd, st)
+                # `for (out : outputs) operator-=(out);` forgets every output there is
+                if nd.get("k") == "rangefor" and out is not None and any(is_param(y, fn, 2) for y in walk(nd.get("r")) if isinstance(y, dict) and y.get("k") == "ref") \
+                        and any(gen(c) for c in walk(nd.get("b")) if isinstance(c, dict)):
+                    out = out | frozenset(["out"])
+                return out
+            fl._loop = _loop
+            try:
+                fl.run(iff.get("t"))
+            except paths.Unstructured:
+                ctx.undecided("intrinsic %s: unstructured control flow" % name, fn, iff)
+                continue
+            n += 1
+            exits = [st for r, st in fl.returns]
+            if exits and all("out" in st for st in exits):
+                ctx.ok("%s: the output is set or forgotten on every path" % name, fn, iff)
+            else:
+                ctx.bad("region_domain::intrinsic(`%s`) has a path that leaves the output Boolean untouched (unknown answer, or the "
+                        "analysis switched off): b := false; b := %s(..); assume(b) makes the state bottom although b is true concretely"
+                        % (name, name), fn, iff, sig="intrinsic-output-stale:%s" % name)
+    if n == 0:
+        ctx.fail("rule C15.r14: no region intrinsic with an output found")
+
+
+def r15_store_never_marks_uninitialised(ctx):
+    ctx.rule("C15.r15", "ref_store never records the region as UNINITIALISED (init = false) in the state it commits: after a store the "
+             "region has been written, and `uninitialised` lets the next store through another reference be a strong update", floor=1)
+    for fn in _fns(ctx, "ref_store")[:1]:
+        body = fn["body"]
+        bad = None
+        for x in walk(body):
+            lhs = rhs = None
+            if x.get("k") == "asg":
+                lhs, rhs = x.get("L"), x.get("R")
+            elif x.get("k") == "call" and x.get("op") == "=" and "o" in x and x.get("a"):
+                lhs, rhs = x["o"], x["a"][0]
+            if lhs is not None and is_call(strip(lhs), name="init_val") and any(is_call(y, name="get_false") for y in walk(rhs)):
+                bad = x
+        if bad is not None:
+            ctx.bad("region_domain::ref_store commits a region state with init = false (`%s`): *r1 := 5; *r2 := a; *r3 := b in an unknown region "
+                    "makes the third store strong and p := *r2 reports the allocation site of b only" % src(bad)[:50], fn, bad,
+                    sig="store-marks-uninitialised")
+        else:
+            ctx.ok("ref_store never sets init to false", fn, body)
+
+
+def r16_copies_install_own_type_function(ctx):
+    ctx.rule("C15.r16", "region_domain: every constructor / assignment that takes a ghost-variable manager from another abstract state "
+             "(copy, move, the private constructor used by the lattice operations) installs its own type function; the function captures "
+             "`this`, so a copied one resolves dynamic types in the other state - or in freed memory", floor=4)
+    n = 0
+    seen = set()
+    for fn in ctx.db.fns(RD, cpk=RC):
+        if not fn.get("body") or (fn["name"], fn["line"]) in seen:
+            continue
+        psig = fn.get("psig") or ""
+        takes = ("region_domain" in psig and (fn.get("ctor") or fn["name"] == "operator=")) or (fn.get("ctor") and "ghost_var" in psig)
+        if not takes:
+            continue
+        seen.add((fn["name"], fn["line"]))
+        copies = any(i.get("field") == "m_ghost_var_man" and i.get("e") is not None and any(isinstance(y, dict) and y.get("k") == "ref" and y.get("rk") == "param" for y in walk(i["e"]))
+                     for i in fn.get("inits", [])) or \
+            any((x.get("k") in ("asg",) or (x.get("k") == "call" and x.get("op") == "=")) and any(is_field(y, "m_ghost_var_man") for y in walk(x)) for x in walk(fn["body"]))
+        if not copies:
+            continue
+        n += 1
+        if any(is_call(c, name="set_type_fn") for c in walk(fn["body"])):
+            ctx.ok("%s installs its own type function" % fn["name"], fn, fn["body"])
+        else:
+            ctx.bad("region_domain::%s takes the ghost-variable manager of another abstract state and keeps its type function, which refers to "
+                    "that state: a copy in which an unknown region is re-interpreted builds ghost variables from the ORIGINAL's dynamic type" %
+                    fn["name"], fn, fn["body"], sig="foreign-type-function:%s:%d" % (fn["name"], len(fn.get("params", []))))
+    if n == 0:
+        ctx.fail("rule C15.r16: no copying constructor / assignment of region_domain found")
+
+
+RULES += [r13_region_copy_overwrites_contents, r14_intrinsic_outputs_redefined, r15_store_never_marks_uninitialised, r16_copies_install_own_type_function]
+
+
+def r17_array_ghost_copied_as_array(ctx):
+    ctx.rule("C15.r17", "ghost_variables::assign copies the ghost of an ARRAY region with array_assign (guarded by an is_array test); a "
+             "numerical assign of two array variables leaves the destination's cells as they were", floor=1)
+    GV = "include/crab/domains/region/ghost_variables.hpp"
+    fs = [f for f in ctx.db.fns(GV, name="assign") if (f.get("cpk") or "").endswith("ghost_variables") and f.get("body") and len(f.get("params", [])) == 2]
+    if not ctx.need(fs, "ghost_variables::assign"):
+        return
+    fn = fs[0]
+    body = fn["body"]
+    g = paths.guards(body)
+    arr = [c for c in walk(body) if is_call(c, name="array_assign")]
+    okc = [c for c in arr if guard_truth(g.get(id(c), ()), lambda x: 1 if is_call(strip(x), name="is_array") else 0, body) is True]
+    plain = [c for c in walk(body) if is_call(c, name="assign") and c.get("o") is not None and is_param(strip(c["o"]), fn, 0) and len(c.get("a", [])) == 2]
+    leak = [c for c in plain if guard_truth(g.get(id(c), ()), lambda x: 1 if is_call(strip(x), name="is_array") else 0, body) is not False]
+    if okc and not leak:
+        ctx.ok("array ghosts are copied with array_assign, scalar ones with assign", fn, okc[0])
+    else:
+        ctx.bad("ghost_variables::assign copies the ghost variable of an array region with the numerical `assign`: R2[0] := 5; R1[0] := 7; "
+                "R2 := region_copy(R1); x := R2[0] gives x = 5", fn, (leak or plain or [body])[0], sig="array-ghost-scalar-assign")
+
+
+RULES += [r17_array_ghost_copied_as_array]
